@@ -40,3 +40,17 @@ package cmpp
 //@   ensures (((month << 60 | day << 55 | hour << 50 | minute << 44 | second << 38 | gateID << 16 | sequenceID) >> 38) & 63) == second
 //@   ensures (((month << 60 | day << 55 | hour << 50 | minute << 44 | second << 38 | gateID << 16 | sequenceID) >> 16) & 4194303) == gateID
 //@   ensures ((month << 60 | day << 55 | hour << 50 | minute << 44 | second << 38 | gateID << 16 | sequenceID) & 65535) == sequenceID
+
+// ---------------------------------------------------------------- login authenticators (C15); md5 is an uninterpreted function
+
+//@ func GenConnectAuth
+//@   props C15
+//@   ensures [C15 digest] result == md5(cat(account, zeros(9), password, timestampStr)) && len(result) == 16
+
+//@ func GenConnectRespAuthISMG
+//@   props C15
+//@   ensures [C15 digest] result == md5(cat(content(statusBytes), reqAuth, password)) && len(result) == 16
+
+//@ func TimeStamp2Str
+//@   props C15
+//@   ensures [C15 tenDigits] result == dec10(int(t)) && len(result) == 10 && nonul(result)
